@@ -9,8 +9,10 @@ import (
 	"math/rand/v2"
 	"net"
 	"os"
+	"reflect"
 	"runtime"
 	"strconv"
+	"strings"
 	"sync"
 	"sync/atomic"
 	"time"
@@ -47,6 +49,7 @@ type Event struct {
 	Err      string
 	Data     []byte // write: bytes reported as sent; read: body copy
 	Raw      []byte // read: copy of ExtensionFields.TerminalData at callback time
+	HdrDump  string // read (KeepMsg): every string / byte-slice field of the header, unexported ones included, at callback time
 	Sum, No  uint16
 	Complete bool
 	Active   bool
@@ -79,6 +82,38 @@ func NewRecorder() *Recorder {
 	allRecs = append(allRecs, r)
 	regMu.Unlock()
 	return r
+}
+
+// DumpBytesAndStrings renders every string and byte-slice field of a value — exported or not, through pointers and nested
+// structs — as "path=hex;". Unexported fields are read through reflect's read-only access. Two dumps of the same delivered
+// header taken at different times must be equal: integer fields (reply ID, platform serial) are legitimately rewritten by the
+// writer and are left out, but bytes and text of a message that was handed out must not change.
+func DumpBytesAndStrings(v any) string {
+	var sb strings.Builder
+	var walk func(path string, rv reflect.Value, depth int)
+	walk = func(path string, rv reflect.Value, depth int) {
+		if depth > 4 {
+			return
+		}
+		switch rv.Kind() {
+		case reflect.Pointer, reflect.Interface:
+			if !rv.IsNil() {
+				walk(path, rv.Elem(), depth+1)
+			}
+		case reflect.Struct:
+			for i := 0; i < rv.NumField(); i++ {
+				walk(path+"."+rv.Type().Field(i).Name, rv.Field(i), depth+1)
+			}
+		case reflect.String:
+			fmt.Fprintf(&sb, "%s=%x;", path, rv.String())
+		case reflect.Slice:
+			if rv.Type().Elem().Kind() == reflect.Uint8 {
+				fmt.Fprintf(&sb, "%s=%x;", path, rv.Bytes())
+			}
+		}
+	}
+	walk("", reflect.ValueOf(v), 0)
+	return sb.String()
 }
 
 func identKey(phone string, serial uint16) string { return phone + "/" + strconv.Itoa(int(serial)) }
@@ -151,6 +186,9 @@ func (r *Recorder) OnReadExecutionEvent(m *service.Message) {
 	if r.KeepMsg {
 		e.Msg = m
 		e.Raw = bytes.Clone(m.ExtensionFields.TerminalData)
+		if m.JTMessage != nil {
+			e.HdrDump = DumpBytesAndStrings(m.JTMessage.Header)
+		}
 		if m.JTMessage != nil && m.JTMessage.Header != nil {
 			e.Sum, e.No = m.JTMessage.Header.SubPackageSum, m.JTMessage.Header.SubPackageNo
 		}
